@@ -4,7 +4,7 @@ import contextlib
 import io
 import sys
 
-sys.path.insert(0, "/repo")
+sys.path.insert(0, __import__("os").environ.get("VERIF_REPO", "/repo"))
 from fibertree import Tensor  # noqa: E402
 from fibertree.codec.tensor_codec import Codec  # noqa: E402
 from fibertree.codec.formats.compression_format import CompressionFormat  # noqa: E402
